@@ -100,8 +100,13 @@ def rewrite(s, rules, what):
 def build_tu(repo):
     rd = open(os.path.join(repo, 'nl-writer2', 'include', 'mp', 'sol-reader2.hpp')).read()
     wr = open(os.path.join(repo, 'include', 'mp', 'sol.h')).read()
-    parts = ['#include "mp/common.h"\n',
-             'namespace solguards {\nusing Long = int; using uLong = unsigned int; using uiolen = uLong; using real = double; typedef uLong integer;\n']
+    # the integer type aliases are taken verbatim from the class body in sol-reader2.h (the `#ifndef Long` block up to `private:`), so a changed alias
+    # changes the types clang assigns in every slice below (`Long` is not defined as a macro anywhere in the tree: checked)
+    rh = open(os.path.join(repo, 'nl-writer2', 'include', 'mp', 'sol-reader2.h')).read()
+    aliases = cut(rh, '#ifndef Long\n', 'private:\n  SOLHandler& solh_;', 'integer type aliases of SOLReader2')
+    if re.search(r'#\s*define\s+Long\b', rd + rh):
+        raise TranslateError('integer type aliases: `Long` is defined as a macro; the #else branch of the alias block is not modelled')
+    parts = ['#include "mp/common.h"\n', 'namespace solguards {\n' + aliases + '\n']
 
     # ---- count guards ('Some checks.' block up to the binary continuation)
     blk = cut(rd, '    j = (int)z[3];', '    if (binary) {      // read on for binary', 'count guard')
